@@ -357,7 +357,7 @@ func c11check(c *an.Ctx) {
 				}
 			}
 			for _, qc := range an.CallsTo(fn, queryAuthd) {
-				s, _ := an.ErrEdges(qc.Value())
+				s, _ := an.ErrEdgesPhi(qc.Value())
 				requery = append(requery, s...)
 			}
 			q := &an.PathQ{Fn: fn, StartEntry: true, Sink: func(in ssa.Instruction, _ *an.PathState) bool { return isCallToOn(in, isAllowed, nil) },
@@ -370,19 +370,37 @@ func c11check(c *an.Ctx) {
 			}
 			// true is returned only when IsAllowed said so
 			var allowed []an.Edge
+			var verdicts []ssa.Value
+			authF := c.P.Field("nsqd", "clientV2", "AuthState")
 			for _, ac := range an.CallsTo(fn, isAllowed) {
+				verdicts = append(verdicts, ac.Value())
+				// the grant consulted is the connection's current one: read after any re-query, not a copy taken before it
+				cur := false
+				if ld, ok := an.Strip(recvArg(ac)).(*ssa.UnOp); ok && ld.Op == token.MUL {
+					if fa, ok := ld.X.(*ssa.FieldAddr); ok && an.FieldOf(fa) == authF && isParam(fa.X, fn, 0) {
+						qs := &an.PathQ{Fn: fn, StartAfter: []ssa.Instruction{ld}, Sink: func(in ssa.Instruction, _ *an.PathState) bool { return isCallToOn(in, queryAuthd, nil) }}
+						if _, stale := qs.Find(); !stale {
+							cur = true
+						}
+					}
+				}
+				c.Check(cur, fn, "IsAllowed consults the state current after the re-query", ac.Pos(), "", "IsAllowed is evaluated on a value of c.AuthState read before QueryAuthd() may replace it: the first command after the TTL expired is judged by the old grant although the auth server was asked again (and may have revoked it)")
 				for _, t := range an.BoolTests(ac.Value()) {
 					allowed = append(allowed, t.True)
 				}
 				c.Check(isParam(arg(ac, 0), fn, 1) && isParam(arg(ac, 1), fn, 2), fn, "IsAllowed gets topic and channel", ac.Pos(), "", "IsAuthorized does not forward (topic, channel) in that order")
 			}
-			q2 := &an.PathQ{Fn: fn, StartEntry: true,
-				Sink: func(in ssa.Instruction, _ *an.PathState) bool {
+			q2 := &an.PathQ{Fn: fn, StartEntry: true, Marked: verdicts,
+				Sink: func(in ssa.Instruction, st *an.PathState) bool {
 					r, ok := in.(*ssa.Return)
 					if !ok {
 						return false
 					}
-					k, isC := an.Resolve(r.Results[0]).(*ssa.Const)
+					v := an.Resolve(r.Results[0])
+					if st.Marked(v) {
+						return false // `return state.IsAllowed(topic, channel), nil`: the verdict itself
+					}
+					k, isC := v.(*ssa.Const)
 					return !(isC && k.Value != nil && k.Value.String() == "false")
 				},
 				CutEdge: func(e an.Edge, _ *an.PathState) bool { return an.EdgeIn(e, allowed) }}
@@ -422,20 +440,49 @@ func c11check(c *an.Ctx) {
 		hasPerm := c.P.Func("internal/auth", "(*Authorization).HasPermission")
 		perms := map[string]bool{}
 		if hasPerm != nil {
-			for _, hc := range an.CallsTo(fn, hasPerm) {
-				p, _ := an.ConstString(arg(hc, 0))
-				// on which edge of channel != "" ?
-				onNonEmpty := false
-				for _, cmp := range an.CmpsAt(hc.Block()) {
+			nonEmptyIn := func(cmps []an.Cmp) (nonEmpty, empty bool) {
+				for _, cmp := range cmps {
 					if isParam(cmp.X, fn, 2) {
-						if s, ok := an.ConstString(cmp.Y); ok && s == "" && cmp.Op == token.NEQ {
-							onNonEmpty = true
+						if s, ok := an.ConstString(cmp.Y); ok && s == "" {
+							if cmp.Op == token.NEQ {
+								nonEmpty = true
+							}
+							if cmp.Op == token.EQL {
+								empty = true
+							}
 						}
 					}
 				}
-				if (p == "subscribe" && onNonEmpty) || (p == "publish" && !onNonEmpty) {
-					perms[p] = true
+				return
+			}
+			for _, hc := range an.CallsTo(fn, hasPerm) {
+				// the permission asked for: a constant at the call, or a variable set to a constant on each branch
+				type leaf struct {
+					p    string
+					cmps []an.Cmp
 				}
+				var leaves []leaf
+				a := arg(hc, 0)
+				if phi, ok := a.(*ssa.Phi); ok {
+					for i, e := range phi.Edges {
+						if p, ok := an.ConstString(e); ok {
+							leaves = append(leaves, leaf{p, an.CmpsOnEdge(an.Edge{From: phi.Block().Preds[i], To: phi.Block()})})
+						}
+					}
+				} else if p, ok := an.ConstString(a); ok {
+					leaves = append(leaves, leaf{p, an.CmpsAt(hc.Block())})
+				}
+				for _, l := range leaves {
+					ne, em := nonEmptyIn(l.cmps)
+					if (l.p == "subscribe" && ne) || (l.p == "publish" && (em || !ne)) {
+						perms[l.p] = true
+					} else {
+						perms["!"+l.p] = true
+					}
+				}
+			}
+			if perms["!subscribe"] || perms["!publish"] {
+				perms["subscribe"], perms["publish"] = false, false
 			}
 		}
 		c.Check(perms["subscribe"] && perms["publish"], fn, "permission selected by channel emptiness", fn.Pos(), "", "IsAllowed does not require \"subscribe\" for a non-empty channel and \"publish\" otherwise")
